@@ -90,6 +90,21 @@ pub fn generate(tier: &str, seed: u64) -> Vec<String> {
                 out.push(format!("c17 op inner_chunks ibox={}+{} ishape={}", nl(&s), nl(&n), nl(&e)));
             }
         }
+        // (own stream) regions that reach beyond the array shape but stay inside the chunks of the grid ("out-of-bounds
+        // elements will have the fill value"): every byte of the larger buffer must still be written exactly once, on the
+        // plain, the cached and the sharded-extension path
+        if cfg.grid.iter().all(|d| d.0) && !cfg.shape.is_empty() {
+            let mut ro = Rng::new(seed ^ 0xC17_0B ^ (k as u64) << 12);
+            let ext: Vec<u64> = gs.iter().zip(&cfg.grid).map(|(&g, d)| g * d.1[0]).collect();
+            if ext.iter().zip(&cfg.shape).any(|(a, b)| a > b) {
+                for _ in 0..3 {
+                    let mut s = vec![]; let mut n = vec![];
+                    for (&e, &sh) in ext.iter().zip(&cfg.shape) { let st = ro.below(sh.max(1)); s.push(st); n.push(if ro.chance(2, 3) { e - st } else { ro.range(1, e - st) }); }
+                    let verb = *ro.pick(&["retrieve_array_subset", "cached_subset cid=k0", "cached_subset cid=k0", "sharded_subset"]);
+                    out.push(format!("c17 op {} r={}+{}", verb, nl(&s), nl(&n)));
+                }
+            }
+        }
         for _ in 0..(if thorough { 12 } else { 6 }) {
             let mut s = vec![]; let mut n = vec![];
             for &e in &cfg.shape { let st = rng.below(e); s.push(st); n.push(rng.range(1, e - st)); }
